@@ -607,7 +607,7 @@ pub fn analyse_session(case: &Case, out: &Outcome) -> Analysis {
                 // position/go) is answered, for as long as the time budget the GUI happened to give
                 a.v("C14", "R4-unresponsive", cmd_id, format!("while processing `{}` the stdin loop is blocked on {} and nothing can run until a timer fires {} ns later", cmd_line, why, jump_ns));
             }
-            EvK::JoinDone { .. } | EvK::Woke | EvK::Note { .. } => {}
+            EvK::JoinDone { .. } | EvK::Woke | EvK::Note { .. } | EvK::LateNode { .. } => {}
         }
     }
     // the command main was processing when the run ended is judged only if it was completed
@@ -645,6 +645,9 @@ pub fn analyse_session(case: &Case, out: &Outcome) -> Analysis {
                 if t.outs_after_false > 0 {
                     a.v("C07", "R2-not-prompt", g.cmd, format!("search of `{}` reported {} more info line(s) after it had observed the stop", g.line, t.outs_after_false));
                 }
+            }
+            if t.late_nodes > 0 {
+                a.v("C07", "R2-not-prompt", g.cmd, format!("search of `{}` completed {} more node(s) with the stop already delivered, {} or more nodes after it had last looked at its flag", g.line, t.late_nodes, crate::verif_shim::sched::UNPOLLED_GRACE));
             }
         }
         // C07-R2 measured from the arrival of the stop: after the stop/timer store on this search's flag at most one more
@@ -1026,6 +1029,11 @@ pub fn analyse_direct(case: &Case, out: &Outcome) -> Analysis {
             EvK::SawFalse { poll, .. } => {
                 if saw_false_poll.is_none() {
                     saw_false_poll = Some(*poll);
+                }
+            }
+            EvK::LateNode { stores, .. } => {
+                if let Some(idx) = k {
+                    a.v("C07", "R2-not-prompt", idx as u32, format!("{}: the search went on completing nodes with the stop already delivered ({} nodes since it last looked at its flag)", g.line, stores));
                 }
             }
             EvK::Panic { msg, loc } => classify_panic(&mut a, msg, loc, k.unwrap_or(0) as u32, k.is_some()),
